@@ -146,10 +146,13 @@ CHECKS["C02"] = dict(
         dict(pkg="pkg/gcc", entry="HC02LeakyBucketSize", params=dict(concretenow=1, maxlen=4000), require_covers=["accepted"]),
         dict(pkg="pkg/rtpfb", entry="HC02RawTWCC", flags=["-unwind", "9000"], require_covers=["parsed", "rejected by the parser"]),
         dict(pkg="internal/cc", entry="HC02RawTWCCAdapter", flags=["-unwind", "9000"], require_covers=["parsed", "rejected by the parser"]),
-    ] + [dict(pkg="internal/verifchain", entry="HC02ExtRTP", params=dict(kind=k), flags=["-unwind", "1200"], require_covers=["extension packet handled"]) for k in (3, 6, 7, 8)],
-    bounds=dict(quick="structurally inconsistent but parseable TWCC feedback (status count 0..4, run length 0..12 beyond the count, 7-symbol vector chunks with received padding, exactly the deltas rtcp.Unmarshal would produce) through rtpfb.convertTWCC and the gcc FeedbackAdapter; every index/nil/slice operation is an implicit assertion; a well-formed probe feedback afterwards. Raw RTP: ANY byte string of 16 bytes (20 for the NACK generator and report receiver) (all bytes symbolic except that the sequence-number field is within 8 of the probe packet's) with any reported length n <= that size (stale bytes beyond n symbolic too) through the BindRemoteStream reader of the NACK generator, report receiver, TWCC sender, RFC 8888 sender and packetdump receiver (real rtp.Header.Unmarshal from SSA), then a well-formed packet; a packet shorter than the header its CSRC count announces must be rejected whatever stale bytes follow. Extension block: a 16..22-byte packet with a one-byte- or two-byte-profile extension block whose single word (ids, lengths, data) is symbolic, possibly truncated, through the NACK generator, TWCC sender, RFC 8888 sender and packetdump readers. Raw RTCP: ANY 24-byte transport-wide-CC feedback packet (symbolic base, status count 0..8, reference time, one arbitrary 16-bit status chunk of any kind, two arbitrary trailing bytes; run lengths <= 16) through the real rtcp.Unmarshal and then rtpfb processFeedback / the gcc adapter. Outgoing size: ANY payload length 0..1500 / 0..4000 through the gcc LeakyBucketPacer (Write on the caller, release by the pacer goroutine on a harness-fired tick), a second packet afterwards, Close",
-                thorough="same"),
-    outside=["raw RTCP byte strings other than one-chunk 24-byte TWCC packets (compound packets, NACK/SR/RR/XR/CCFB bytes)", "RTP buffers longer than 16-20 bytes (28 bytes did not finish in 20 min: CSRC/extension parsing paths)", "outgoing packet sizes above 4000 and through interceptors other than the leaky bucket pacer", "stats, packetdump, jitter buffer, flexfec, pacers, nack responder RTCP reader"],
+    ] + [dict(pkg="internal/verifchain", entry="HC02ExtRTP", params=dict(kind=k), flags=["-unwind", "1200"], require_covers=["extension packet handled"]) for k in (3, 6, 7, 8)]
+      + [dict(pkg="internal/verifchain", entry="HC02RawRTCP", params=dict(kind=k, len=12, concretenow=1), flags=["-unwind", "1200"], require_covers=["untrusted packet handled", "accepted"], optional_covers=["rejected"],
+              thorough=dict(params=dict(kind=k, len=(16 if k in (11, 12, 17) else 12), concretenow=1), timeout=3000)) for k in (2, 5, 8, 11, 12, 17)]
+      + [dict(pkg="internal/verifchain", entry="HC02RawRTCP", params=dict(kind=12, len=12, tlo=208, thi=255, concretenow=1), flags=["-unwind", "1200"], require_covers=["untrusted packet handled"])],
+    bounds=dict(quick="Raw RTCP: ANY 12-byte string (every byte symbolic; bytes that can be a packet-type field are kept off 207/XR) with any reported length n <= 12 and stale bytes beyond it, through the BindRTCPReader path of the NACK responder, report receiver, packetdump receiver, rtpfb, stats and the cc interceptor with its default gcc estimator - the real rtcp.Unmarshal decides what it is (empty RR, PLI, BYE, SDES, short/garbled headers, compound of 8+4 bytes...): no panic or index error, result is n or an error, a well-formed PLI afterwards is handled. structurally inconsistent but parseable TWCC feedback (status count 0..4, run length 0..12 beyond the count, 7-symbol vector chunks with received padding, exactly the deltas rtcp.Unmarshal would produce) through rtpfb.convertTWCC and the gcc FeedbackAdapter; every index/nil/slice operation is an implicit assertion; a well-formed probe feedback afterwards. Raw RTP: ANY byte string of 16 bytes (20 for the NACK generator and report receiver) (all bytes symbolic except that the sequence-number field is within 8 of the probe packet's) with any reported length n <= that size (stale bytes beyond n symbolic too) through the BindRemoteStream reader of the NACK generator, report receiver, TWCC sender, RFC 8888 sender and packetdump receiver (real rtp.Header.Unmarshal from SSA), then a well-formed packet; a packet shorter than the header its CSRC count announces must be rejected whatever stale bytes follow. Extension block: a 16..22-byte packet with a one-byte- or two-byte-profile extension block whose single word (ids, lengths, data) is symbolic, possibly truncated, through the NACK generator, TWCC sender, RFC 8888 sender and packetdump readers. Raw RTCP: ANY 24-byte transport-wide-CC feedback packet (symbolic base, status count 0..8, reference time, one arbitrary 16-bit status chunk of any kind, two arbitrary trailing bytes; run lengths <= 16) through the real rtcp.Unmarshal and then rtpfb processFeedback / the gcc adapter. Outgoing size: ANY payload length 0..1500 / 0..4000 through the gcc LeakyBucketPacer (Write on the caller, release by the pacer goroutine on a harness-fired tick), a second packet afterwards, Close",
+                thorough="same; raw RTCP of 16 bytes through rtpfb, stats and cc"),
+    outside=["raw RTCP byte strings longer than 12 (thorough: 16) bytes other than one-chunk 24-byte TWCC packets; any RTCP buffer containing an extended report (XR, type 207: pion/rtcp decodes it through package reflect, which the engine does not model)", "RTP buffers longer than 16-20 bytes (28 bytes did not finish in 20 min: CSRC/extension parsing paths)", "outgoing packet sizes above 4000 and through interceptors other than the leaky bucket pacer", "jitter buffer, flexfec and pacers on the RTCP side"],
     assumptions=["the unmarshal post-condition P_U used to build the structured feedback (DESIGN.md C02)"],
 )
 
